@@ -13,6 +13,9 @@ class GopherProtocol(BaseGopherProtocol):
         return True
 
     def renderobjinfo(self, entry):
+        # An entry that names another host but no port means the standard
+        # port there, not the one this server happens to listen on.
+        defaultport = self.server.server_port if entry.gethost() is None else 70
         retval = (
             entry.gettype("0")
             + entry.getname()
@@ -21,7 +24,7 @@ class GopherProtocol(BaseGopherProtocol):
             + "\t"
             + entry.gethost(default=self.server.server_name)
             + "\t"
-            + str(entry.getport(default=self.server.server_port))
+            + str(entry.getport(default=defaultport))
         )
         if entry.getgopherpsupport():
             return retval + "\t+\r\n"
